@@ -2,7 +2,7 @@
    C07: "A scan cursor is a stable, memory-safe snapshot while the store moves under it". *)
 From Coq Require Import NArith ZArith List Bool Arith.
 From Blue Require Import Cursor.Iface Cursor.Ref Cursor.Bounds Cursor.Pruning Cursor.Spec Cursor.Proofs_Ref Cursor.Proofs_Spec
-  Snap.Model Snap.ProofsSafe Snap.ProofsLeaf Snap.ProofsGrow Snap.ProofsScan Snap.ProofsSpec Snap.ProofsStable Snap.ProofsLTG.
+  Snap.Model Snap.ProofsSafe Snap.ProofsLeaf Snap.ProofsGrow Snap.ProofsScan Snap.ProofsSpec Snap.ProofsStable Snap.ProofsLTG Snap.ProofsWF.
 Import ListNotations.
 Local Open Scope N_scope.
 
@@ -130,15 +130,20 @@ Proof. exact pruning_screens_late_writes. Qed.
 
 (* THE FULL STATEMENT: the restriction `quietb` is gone.  A cursor opened after ANY history es1 and
    held across ANY further events es2 - now including writes into the very memtable it iterates
-   while that memtable is the active one, interleaved in any way with its own calls in any order
-   and direction - returns, call by call, exactly what the reference cursor over
+   while that memtable is the active one, whole (EWrite) or in their parts (EAssign / EInsert /
+   EPublish: entries of writers still in flight appearing one at a time in any memtable, before and
+   after the scan is opened), interleaved in any way with its own calls in any order and direction -
+   returns, call by call, exactly what the reference cursor over
    `scan_spec s1 lo hi` returns: the contents the store had when the scan was opened.  It never
    shows a write that completed after it was opened, and it does not change between walks.
    Hypotheses, all decidable:
    - `open_wfb` (as above) and `open_tsb`: at scan-open the read timestamp is a sequence number
-     already handed out and nothing in the store carries a later one (the check evaluates both at
-     every scan it opens on the real store; that the read timestamp never covers a write still
-     being inserted is the visible_seq_no discipline of C06, validated here by the concurrent stage);
+     already handed out, nothing in the store carries a later one, and the files hold nothing newer
+     than the read timestamp (entries of writers in flight ARE allowed in the memtables: they are
+     newer than the read timestamp; the check evaluates both booleans at every scan it opens on the
+     real store; that a writer publishes only after all its entries are in, and in sequence order,
+     is the visible_seq_no discipline of C06 - the model lets EPublish happen at any time, which
+     only adds behaviours - validated here on the real store by the concurrent stage);
    - `held_ok`: es2 does not re-open or drop this cursor, and a write batch does not name a key twice;
    - `fuel_enoughb`: the fuel of the models' loops (the Rust loops have none) covers what the cursor
      holds at scan-open plus what is written while it is held;
@@ -179,6 +184,73 @@ Example ex_stable_under_writes :
     [OObs (Some (mkE [97] 3 (Some [1])), None); OObs (Some (mkE [99] 6 (Some [3])), None); OObs (None, None);
      OObs (Some (mkE [99] 6 (Some [3])), None); OObs (Some (mkE [97] 3 (Some [1])), None); OObs (None, None);
      OObs (Some (mkE [99] 6 (Some [3])), None); OObs (None, None); OObs (Some (mkE [99] 6 (Some [3])), None)].
+Proof. vm_compute. repeat split. Qed.
+
+(* The hypotheses about the store at scan-open are INVARIANTS along accepted histories, so the
+   statement holds at EVERY state such a history reaches, with nothing evaluated on that state.
+   `acc_run` (Model) accepts a history step by step: a write batch does not name a key twice; the
+   flush completes once the writers that still insert into the immutable memtable have published;
+   an install (compaction, move, GC) is of a well-formed version (files sorted, levels below L0
+   sorted end to end, no (key, timestamp) twice) that holds no (key, timestamp) the current version
+   does not hold - it may drop, it may not invent (`install_okb`); everything else (the parts of
+   writes in any interleaving, rollovers, clean-up, evictions, any number of other cursors) is
+   accepted as it is.  The invariant (ProofsWF.SI): memtables sorted, the version well-formed, no
+   (key, timestamp) twice among the two memtables a scan opens on and the version, nothing newer
+   than the sequence numbers handed out, nothing in the files newer than the read timestamp. *)
+Theorem C07_open_hypotheses_are_invariants : forall c seq es1 lo hi,
+  cf_iter_owns c = true -> cf_holds_ver c = true -> acc_run c (minit seq) es1 = true ->
+  let s1 := fst (mrun c (minit seq) es1) in
+  scan_wf lo hi (map (look_of s1) (open_mems s1)) (cur_levels s1) /\
+  distinct (all_entries (map (look_of s1) (open_mems s1)) (cur_levels s1)) /\ open_tsb s1 = true.
+Proof.
+  intros c seq es1 lo hi Hio Hhv Hacc s1.
+  destruct (SI_run c Hio Hhv es1 (minit seq) (init_inv seq) (SI_init seq) Hacc) as [HS _]. fold s1 in HS.
+  destruct (SI_scan_wf s1 lo hi HS) as [H1 H2]. split; [exact H1|]. split; [exact H2|]. now apply SI_open_tsb.
+Qed.
+
+Theorem C07_cursor_snapshot_stable_accepted : forall c seq es1 cid lo hi es2,
+  cf_iter_owns c = true -> cf_holds_ver c = true ->
+  acc_run c (minit seq) es1 = true ->
+  let s1 := fst (mrun c (minit seq) es1) in
+  find_scan s1 cid = None -> forallb (held_ok cid) es2 = true -> fuel_enoughb c s1 es2 = true ->
+  Forall no_err (snd (mrun c s1 (EOpen cid lo hi :: es2))) ->
+  cursor_trace cid (EOpen cid lo hi :: es2) (snd (mrun c s1 (EOpen cid lo hi :: es2))) =
+  ref_trace (scan_spec s1 lo hi) (-1) cid es2.
+Proof. exact snapshot_stable_accepted. Qed.
+
+(* non-vacuity: the histories of the examples are accepted ones (ex_es1 has a flush, ex_es2' an
+   install that rearranges the files, dropping a shadowed version) *)
+Definition ex_es1' : list event :=
+  ex_es1 ++ [ERollover; EFlushDone 8;
+             EInstall [[]; [mkFile 9 [mkE [97] 3 (Some [1]); mkE [98] 5 None; mkE [99] 6 (Some [3])]]]].
+Example ex_histories_accepted :
+  acc_run ex_cfg2 (minit 2) ex_es1 = true /\ acc_run ex_cfg2 (minit 2) ex_es1' = true /\
+  Forall no_err (snd (mrun ex_cfg2 (minit 2) ex_es1')) /\
+  acc_run ex_cfg2 (minit 2) (ex_es1 ++ [EInstall [[mkFile 9 [mkE [97] 9 (Some [1])]]]]) = false.
+Proof. vm_compute. repeat split; repeat constructor. Qed.
+
+(* non-vacuity for the case the atomic EWrite cannot reach: a write IN ITS PARTS (EAssign: the writer is
+   given its sequence number; EInsert: it inserts one entry, with no lock held; EPublish: it makes
+   the number the read timestamp).  The scan is opened while writer 4 has inserted one of its
+   entries and not published (visible_seq_no = 3, seq_no = 4, 98@4 already in the memtable);
+   while the cursor is held the writer inserts more on both sides of the cursor's position and
+   publishes, and a second writer puts a tombstone on a key the cursor shows.  All hypotheses of
+   C07_cursor_snapshot_stable hold, and the cursor keeps returning 97@3 and 99@3 only. *)
+Definition ex_es4 : list event := [EWrite [([97], Some [1]); ([99], Some [3])]; EAssign; EInsert 0 [98] 4 (Some [2])].
+Definition ex_es5 : list event :=
+  [EInsert 0 [96] 4 (Some [7]); EStep 1 ONext; EInsert 0 [100] 4 (Some [5]); EPublish 4; EStep 1 ONext; EAssign; EInsert 0 [97] 5 None;
+   EStep 1 ONext; EStep 1 OPrev; EPublish 5; EStep 1 OPrev; EStep 1 OPrev; EStep 1 (OSeek [98]); EStep 1 OLast; EStep 1 OPrev].
+Example ex_opened_between_insert_and_publish :
+  let s1 := fst (mrun ex_cfg2 (minit 2) ex_es4) in
+  acc_run ex_cfg2 (minit 2) ex_es4 = true /\
+  find_scan s1 1 = None /\ open_wfb ex_cfg2 s1 Unbounded Unbounded = true /\ open_tsb s1 = true /\
+  forallb (held_ok 1) ex_es5 = true /\ fuel_enoughb ex_cfg2 s1 ex_es5 = true /\
+  ms_vis s1 = 3 /\ ms_seq s1 = 4 /\ look_of s1 0 = [mkE [97] 3 (Some [1]); mkE [98] 4 (Some [2]); mkE [99] 3 (Some [3])] /\
+  scan_spec s1 Unbounded Unbounded = [mkE [97] 3 (Some [1]); mkE [99] 3 (Some [3])] /\
+  cursor_trace 1 (EOpen 1 Unbounded Unbounded :: ex_es5) (snd (mrun ex_cfg2 s1 (EOpen 1 Unbounded Unbounded :: ex_es5))) =
+    [OObs (Some (mkE [97] 3 (Some [1])), None); OObs (Some (mkE [99] 3 (Some [3])), None); OObs (None, None);
+     OObs (Some (mkE [99] 3 (Some [3])), None); OObs (Some (mkE [97] 3 (Some [1])), None); OObs (None, None);
+     OObs (Some (mkE [99] 3 (Some [3])), None); OObs (None, None); OObs (Some (mkE [99] 3 (Some [3])), None)].
 Proof. vm_compute. repeat split. Qed.
 
 (* ---- the two repairs are necessary: each pre-repair rule is refuted by a concrete schedule *)
